@@ -375,7 +375,7 @@ func ruleImplicitPanic(w *World, r *Run, rule string, reach map[*ssa.Function]bo
 	r.extra["implicit_panic_sites"] = len(keys)
 	r.extra["implicit_panic_sites_auto_discharged"] = auto
 	r.extra["implicit_panic_sites_confirmed_safe_table"] = tabled
-	if len(keys) < 8 && len(reach) > 20 {
+	if len(keys) < 8 && rule == "C19.b" {
 		r.Undecided(rule, "implicit-panic site enumeration", "", fmt.Sprintf("only %d candidate sites found", len(keys)))
 	}
 }
